@@ -245,6 +245,18 @@ func (t *Table) Expect(args []string) (e Expect) {
 			out = append(out, tr...)
 			out = append(out, "-"+id)
 			return out, "(" + id + " " + res + " " + res + " " + leave + ")"
+		case "nested":
+			if !t.Tagged {
+				// the entering mark carries the value of the nested call of another generic function, (c10-helper 0)
+				tr, res := walk(i + 1)
+				out := append([]string{id + "=(0 0)"}, tr...)
+				out = append(out, "-"+id)
+				return out, "(" + id + " " + res + " " + leave + ")"
+			}
+			tr, res := walk(i + 1)
+			out := append([]string{id}, tr...)
+			out = append(out, "-"+id)
+			return out, "(" + id + " " + res + " " + leave + ")"
 		case "nmp":
 			tr, res := walk(i + 1)
 			out := append([]string{id + "=t"}, tr...)
